@@ -140,10 +140,24 @@ func c07run(enc *json.Encoder, id int, sc c07scen, rng *rand.Rand) {
 			if size == 0 {
 				size = []int{0, 10, 100, 5000}[rng.Intn(4)]
 			}
-			if _, err := aw.Write(c07item(next, size)); err == nil {
-				okIDs = append(okIDs, next)
-			} else {
-				failIDs = append(failIDs, next)
+			// Write either accepts or refuses, also while the disk is stalled: it is called under a watchdog, so that a Write
+			// that waits for the disk is an observation and not a hang of the driver
+			item := c07item(next, size)
+			wres := make(chan error, 1)
+			go func() { _, err := aw.Write(item); wres <- err }()
+			select {
+			case err := <-wres:
+				if err == nil {
+					okIDs = append(okIDs, next)
+				} else {
+					failIDs = append(failIDs, next)
+				}
+			case <-time.After(2 * time.Second):
+				flushBatch()
+				enc.Encode(map[string]any{"ev": "WriteBlocked", "id": next})
+				g.setOpen(true) // let it finish, end the scenario
+				<-wres
+				closed = true
 			}
 		case "R":
 			g.release(op.N)
